@@ -104,6 +104,10 @@ func runC17(c *Ctx) {
 			}
 			trees = append(trees, &VT{Kind: 's', S: "x" + string(r) + "y"})
 		}
+		for _, r := range []rune{0xfffd, 0xffff, 0x10000, 0x1f600, 0x2fffe, 0xe0001, 0x10ffff} {
+			trees = append(trees, &VT{Kind: 's', S: "x" + string(r) + "y"})
+			trees = append(trees, &VT{Kind: 'M', Keys: []string{string(r)}, Items: []*VT{{Kind: 's', S: "v"}}})
+		}
 	}
 	for i := 0; i < n; i++ {
 		trees = append(trees, genVT(c.rng, 1+c.rng.Intn(5), strGen))
